@@ -50,6 +50,7 @@ func c01Jobs(tier string) []string {
 		add(base+",mtu=76,aw=96,issa=4294967276,b=1", 4)
 		add(base+",aw=2x1400,v6=1,mtu=1280,b=1", 2)
 		add(base+",mtu=76,aw=400,rcvbuf=100,b=1", 4)
+		add(base+",mtu=76,aw=300+100,sndbuf=128,b=1", 4)
 		add("or=s,bw=300,close=none,mtu=576,aw=2x500,b=1", 2)
 		add("or=s,bw=24,close=none,mtu=76,aw=48,b=2", 8)
 		for _, j := range rawJobsC01(tier) {
@@ -83,6 +84,8 @@ func c01Jobs(tier string) []string {
 	}
 	add(base+",mtu=76,aw=400,rcvbuf=100,b=1", 4)
 	add(base+",mtu=76,aw=400,rcvbuf=100,read=end,b=1", 4)
+	add(base+",mtu=76,aw=300+100,sndbuf=128,b=1", 4)
+	add(base+",mtu=76,aw=300+100,sndbuf=128,rcvbuf=100,b=2", 32)
 	// budget 2 on the smallest configurations
 	add(base+",mtu=76,aw=48,bw=24,b=2", 16)
 	add(base+",mtu=100,aw=2x24,bw=24,sack=1,b=2", 16)
